@@ -5,7 +5,7 @@
 From Coq Require Import List Arith Lia Ring ZArith QArith Qcanon String.
 From PyOMA.Base Require Import Carrier FMat Cplx Show.
 From PyOMA.Model Require Import M_preger_sd.
-From PyOMA.Proofs Require Import P_preger_sd.
+From PyOMA.Proofs Require Import P_preger_sd P_spectral_compose.
 Import ListNotations.
 
 Section S.
@@ -143,6 +143,76 @@ Theorem C04_identical_refs_complexQ : forall invn nr n (Gs:nat->setupG (C Qc)) (
       (fun r c => if (r <? nr)%nat then G r c else vstk QcC n (fun k => nmov (Gs k)) (fun k => Gmr (Gs k)) (r - nr)%nat c).
 Proof. exact (preger_identical_refs (C Qc) QcC (CRth Qc QcOps QcRth)). Qed.
 
+(* ---------------------------------------------------------------------------------------------------------------
+   Composition with C13: csd INSTANTIATED by the modelled estimator of Model/M_spectra.v (no oracle left for it).
+   R is now the REAL sample carrier; the spectra live in complex pairs C R with the ring COps K.
+   sd_par R = run parameters as the model sees them (ParPer: 'per' = Welch with window w, twiddle table tw, 1/n, scale,
+   1/K, nxseg n, step = n - noverlap, K segments;  ParCor: 'cor');  sd_model K p Y Yref a b f = the modelled SD_est on
+   stacked data;  welch_csd K p x y f = that model on one channel record x against one reference record y (Rec = nat -> R);
+   gain_rec K g x = the record g.x.  Proofs/P_spectral_compose.v. *)
+Section W.
+Variable R:Type. Variable K:Ops R.
+Hypothesis Rth : ring_theory (o0 K) (o1 K) (oadd K) (omul K) (osub K) (oopp K) (@eq R).
+
+(* sd_model IS C13's model, for either method and any window / twiddle table / nxseg / overlap *)
+Theorem C04_welch_model_is_C13_model :
+  (forall tw w invn scale invK n step nseg,
+     sd_model K (ParPer tw w invn scale invK n step nseg) = M_spectra.sd_per K tw w invn scale invK n step nseg) /\
+  (forall tw we invm invn invK n nseg,
+     sd_model K (ParCor tw we invm invn invK n nseg) = M_spectra.sd_cor K tw we invm invn invK n nseg).
+Proof. split; reflexivity. Qed.
+
+(* the two things C04 asks of csd hold for it: (1) entry-locality - the matrix on the stacked data is entry-wise the
+   two-record estimator, which sees the samples only; (2) degree-2 homogeneity in a common real gain, in exactly the
+   form of C04_gain_data's hypothesis (g2 = g.g + 0i in the complex carrier) *)
+Theorem C04_welch_is_admissible_estimator : forall (p:sd_par R),
+  (forall (Y Yref:M_spectra.rsig R) a b f, sd_model K p Y Yref a b f = welch_csd K p (Y a) (Yref b) f) /\
+  (forall (x x' y y':nat->R) f, (forall t, x t = x' t) -> (forall t, y t = y' t) ->
+     welch_csd K p x y f = welch_csd K p x' y' f) /\
+  (forall (g:R) (x y:nat->R) f,
+     welch_csd K p (gain_rec K g x) (gain_rec K g y) f
+     = omul (COps K) (cofR K (omul K g g)) (welch_csd K p x y f)).
+Proof. exact (welch_admissible R K Rth). Qed.
+
+(* the blocks SD_PreGER keeps of a setup are blocks of that setup's modelled matrix *)
+Theorem C04_setup_blocks_welch : forall (p:sd_par R) (f:nat) (d:setupD (nat->R)),
+  (forall a b, Grr (setup_sd (welch_csd K) p f d) a b = sd_model K p (d_ref d) (d_ref d) a b f) /\
+  (forall a b, Gmr (setup_sd (welch_csd K) p f d) a b = sd_model K p (d_mov d) (d_ref d) a b f).
+Proof. exact (setup_blocks_model R K). Qed.
+
+(* C04_gain_data with the estimator instantiated: every record of setup i multiplied by the real g; only the
+   inverse contract remains as a hypothesis *)
+Theorem C04_gain_data_welch : forall invn nr n (p:sd_par R) (Y:nat->setupD (nat->R)) (X X':nat->nat->fmat (C R))
+    (i:nat) (g:R) (f:nat),
+  (i < n)%nat ->
+  let Y' := fun k => if Nat.eqb k i then scaleD (gain_rec K g) (Y k) else Y k in
+  let Gs := fun k => setup_sd (welch_csd K) p f (Y k) in
+  (forall k, (k < n)%nat -> inv_contract (COps K) nr (Grr (Gs k)) (X f k)) ->
+  (forall k, (k < n)%nat -> inv_contract (COps K) nr (Grr (setup_sd (welch_csd K) p f (Y' k))) (X' f k)) ->
+  let M' := fadd (COps K) (gmean (COps K) invn n Gs)
+                 (fscal (COps K) (omul (COps K) (osub (COps K) (cofR K (omul K g g)) (o1 (COps K))) invn) (Grr (Gs i))) in
+  feq (merge_rows nr n Gs) nr (sd_preger (COps K) (welch_csd K) invn nr n p Y' X' f)
+      (merge_with (COps K) M' nr n (fun k => d_nmov (Y k)) (transm (COps K) nr Gs (X f))).
+Proof. exact (preger_gain_data_welch R K Rth). Qed.
+
+(* C04_simultaneous with the estimator instantiated: setups whose reference records carry the same samples =>
+   merged = the modelled SD_est of (references, roving_0, roving_1, ...) against the references, at the same line,
+   for either method and every parameter; only the inverse contract and n.invn = 1 remain *)
+Theorem C04_simultaneous_welch : forall invn nr n (p:sd_par R) (Y:nat->setupD (nat->R)) (X:nat->nat->fmat (C R))
+    (ref:nat->nat->R) (f:nat),
+  (forall k a t, (k < n)%nat -> (a < nr)%nat -> d_ref (Y k) a t = ref a t) ->
+  (forall k, (k < n)%nat -> inv_contract (COps K) nr (Grr (setup_sd (welch_csd K) p f (Y k))) (X f k)) ->
+  omul (COps K) (ofnat (COps K) n) invn = o1 (COps K) ->
+  feq (merge_rows nr n (fun k => setup_sd (welch_csd K) p f (Y k))) nr
+      (sd_preger (COps K) (welch_csd K) invn nr n p Y X f)
+      (fun r c => sd_model K p (all_sensors nr n ref Y) ref r c f).
+Proof. exact (preger_simultaneous_welch R K Rth). Qed.
+(* ... and n.invn = 1 may be checked in R when 1/n is real *)
+Theorem C04_count_inverse_real : forall n (invn:R),
+  omul K (ofnat K n) invn = o1 K -> omul (COps K) (ofnat (COps K) n) (cofR K invn) = o1 (COps K).
+Proof. exact (count_inverse_cofR R K Rth). Qed.
+End W.
+
 Print Assumptions C04_structure.
 Print Assumptions C04_identical_refs.
 Print Assumptions C04_simultaneous.
@@ -155,6 +225,12 @@ Print Assumptions C04_exec_sound.
 Print Assumptions C04_dims.
 Print Assumptions C04_merge_l_spec.
 Print Assumptions C04_identical_refs_complexQ.
+Print Assumptions C04_welch_model_is_C13_model.
+Print Assumptions C04_welch_is_admissible_estimator.
+Print Assumptions C04_setup_blocks_welch.
+Print Assumptions C04_gain_data_welch.
+Print Assumptions C04_simultaneous_welch.
+Print Assumptions C04_count_inverse_real.
 
 (* non-vacuity.  Two setups, 2 references, 1 and 2 roving sensors, Hermitian complex reference block G1 (det 91/16):
    (a) the adjugate inverse meets the two-sided contract (certificate T) and with identical reference blocks the
@@ -199,3 +275,43 @@ Example C04_example_exec :
   | ErrLinAlg => false
   end = true.
 Proof. vm_compute. split; reflexivity. Qed.
+
+(* non-vacuity of the composition (exact, n = 4 twiddle table omega = -i, periodic Hann [0,1/2,1,1/2], 50 % overlap,
+   8 samples = 3 segments; 'cor': 4 box-car half segments, window [1,1/2,1/4,1/2]).  One simultaneous recording: reference
+   cos(2 pi t/4), roving 2 sin(2 pi t/4) (setup 0) and a broadband record (setup 1).  The 1 x 1 reference block is non-zero
+   (its complex reciprocal meets the two-sided contract), 2 . 1/2 = 1, and the merged 3 x 1 matrix at line 1 equals the
+   modelled SD_est of the stacked recording, for 'per' and for 'cor'; the roving entries are not zero. *)
+Definition C04_ex_Y : nat -> setupD (nat -> Qc) :=
+  fun k => mkD 1 (fun _ => sc_ex_cos) (fun _ => if Nat.eqb k 0 then sc_ex_sin2 else sc_ex_broad).
+Example C04_example_welch_simultaneous :
+  forallb (fun p =>
+    let X := sc_ex_inv1 p C04_ex_Y in
+    forallb (fun k => sc_ex_contract1 (Grr (setup_sd (welch_csd QcOps) p 1 (C04_ex_Y k))) (X 1%nat k)) (seq 0 2)
+    && ceqb (cmul QcOps (ofnat QcC 2) (q 1 2, q 0 1)) (c1 QcOps)
+    && feqb ceqb 3 1 (sd_preger QcC (welch_csd QcOps) (q 1 2, q 0 1) 1 2 p C04_ex_Y X 1)
+                     (fun r c => sd_model QcOps p (all_sensors 1 2 (fun _ => sc_ex_cos) C04_ex_Y) (fun _ => sc_ex_cos) r c 1)
+    && negb (ceqb (sd_preger QcC (welch_csd QcOps) (q 1 2, q 0 1) 1 2 p C04_ex_Y X 1 1%nat 0%nat) (c0 QcOps))
+    && negb (ceqb (sd_preger QcC (welch_csd QcOps) (q 1 2, q 0 1) 1 2 p C04_ex_Y X 1 2%nat 0%nat) (c0 QcOps)))
+    [sc_ex_per; sc_ex_cor] = true.
+Proof. vm_compute. reflexivity. Qed.
+(* gain: two setups with DIFFERENT reference records (cos; broadband), the records of setup 1 multiplied by g = 3: both
+   inverse contracts hold and the merged matrix computed from the scaled records equals the old transmissibilities
+   applied to mean + (9 - 1)/2 . Grr(1); the mean did change *)
+Definition C04_ex_Yg : nat -> setupD (nat -> Qc) :=
+  fun k => if Nat.eqb k 0 then mkD 1 (fun _ => sc_ex_cos) (fun _ => sc_ex_sin2) else mkD 1 (fun _ => sc_ex_broad) (fun _ => sc_ex_cos).
+Example C04_example_welch_gain :
+  forallb (fun p =>
+    let Y := C04_ex_Yg in
+    let Y' := fun k => if Nat.eqb k 1 then scaleD (gain_rec QcOps (q 3 1)) (Y k) else Y k in
+    let X := sc_ex_inv1 p Y in let X' := sc_ex_inv1 p Y' in
+    let Gs := fun k => setup_sd (welch_csd QcOps) p 1 (Y k) in
+    let M' := fadd QcC (gmean QcC (q 1 2, q 0 1) 2 Gs)
+                (fscal QcC (cmul QcOps (csub QcOps (cofR QcOps (q 9 1)) (c1 QcOps)) (q 1 2, q 0 1)) (Grr (Gs 1%nat))) in
+    forallb (fun k => sc_ex_contract1 (Grr (Gs k)) (X 1%nat k)) (seq 0 2)
+    && forallb (fun k => sc_ex_contract1 (Grr (setup_sd (welch_csd QcOps) p 1 (Y' k))) (X' 1%nat k)) (seq 0 2)
+    && feqb ceqb 3 1 (sd_preger QcC (welch_csd QcOps) (q 1 2, q 0 1) 1 2 p Y' X' 1)
+                     (merge_with QcC M' 1 2 (fun k => d_nmov (Y k)) (transm QcC 1 Gs (X 1%nat)))
+    && negb (ceqb (sd_preger QcC (welch_csd QcOps) (q 1 2, q 0 1) 1 2 p Y' X' 1 0%nat 0%nat)
+                  (sd_preger QcC (welch_csd QcOps) (q 1 2, q 0 1) 1 2 p Y X 1 0%nat 0%nat)))
+    [sc_ex_per; sc_ex_cor] = true.
+Proof. vm_compute. reflexivity. Qed.
